@@ -261,7 +261,7 @@ func (ex *Exec) binop(st *State, op token.Token, x, y *Val, xt, yt types.Type, i
 				return scalar(prod)
 			}
 		}
-		if a.IsLit() || b.IsLit() {
+		if !signed {
 			return scalar(wrapInt(prod, w, signed, true))
 		}
 		// product of two symbolic operands: overflow is never intended in this code base;
